@@ -65,6 +65,11 @@ pub mod storage;
 pub fn unix_ms() -> u64 {
     use std::time::{SystemTime, UNIX_EPOCH};
 
+    #[cfg(feature = "verif")]
+    if let Some(now) = anda_db_utils::verif::clock_ms() {
+        return now;
+    }
+
     match SystemTime::now().duration_since(UNIX_EPOCH) {
         Ok(ts) => ts.as_millis() as u64,
         Err(err) => {
